@@ -210,6 +210,10 @@ func controlOps(r *lib.Rng, c *Case, bases []int, nblocks int, heavy bool) map[i
 		if r.Chance(1, 4) {
 			at = r.Intn(2) // right at the start or after the first block
 		}
+		if r.Chance(1, 6) { // a request that must be refused and change nothing
+			out[at] = append(out[at], refusedRequest(r, c, nsamp-npre))
+			continue
+		}
 		switch r.Intn(5) {
 		case 0, 1, 2:
 			var chans []int
@@ -795,4 +799,93 @@ func CorpusC01() []Case {
 		{Npre: 4, Nsamp: 16, Rate: 10000, F0: 0, T0: 1e9, Lag: 3, Chans: []ChanCfg{{Restored: &auto}},
 			Ops: blocksOf(y, 50, 50, 50, 50, 50, 50, 50, 50), Note: "records read three blocks after they were published"},
 	}
+}
+
+// refusedRequest: a ChangeTriggerState request that switches edge-multi on with parameters the record lengths cannot
+// support (nmonotone > nsamp-npre for post = the LARGEST nsamp-npre in force during the case, or far beyond any
+// length), addressed to all or some channels. It must be refused and leave every channel exactly as it was.
+func refusedRequest(r *lib.Rng, c *Case, post int) Op {
+	t := TS{Edge: true, ERising: true, ELevel: int32(r.Pick([]int{1, 50, 100})), LLevel: 4000, DelayNs: delayFor(c, 7),
+		EMulti: true, EMZeroOff: r.Bool(), EMNMono: r.Pick([]int{60, 61, 500, 1 << 30, (1 << 31) - 1})}
+	if r.Chance(1, 4) {
+		t.Auto, t.Level = true, true
+	}
+	var chans []int
+	for i := range c.Chans {
+		if r.Chance(2, 3) {
+			chans = append(chans, i)
+		}
+	}
+	if len(chans) == 0 {
+		chans = []int{0}
+	}
+	return Op{Op: "CT", Chans: chans, TS: &t}
+}
+
+// GenRefused: triggering is running; a pulse is recorded in the part of a block that the stream retains
+// (the last 2*nsamp+10 samples); then, before the next block, requests that are refused (ChangeTriggerState
+// switching edge-multi on with unsupportable parameters, ConfigurePulseLengths with invalid lengths) or accepted
+// without changing anything (ConfigurePulseLengths with the lengths in force); then more data. Nothing may change:
+// in particular the recorded pulse must not be recorded a second time.
+func GenRefused(r *lib.Rng, id int64, tier string) Case {
+	npre, nsamp := pickLengths(r)
+	c := Case{ID: id, Npre: npre, Nsamp: nsamp, F0: pickF0(r), T0: int64(7e9), Note: "refused-requests"}
+	setRate(r, &c)
+	nchan := r.Pick([]int{1, 1, 2})
+	nb := r.Range(2, 4)
+	var blocks []int
+	n := 0
+	for k := 0; k < nb; k++ {
+		b := r.Range(3*nsamp+12, 6*nsamp)
+		blocks = append(blocks, b)
+		n += b
+	}
+	bnd := boundaries(blocks)
+	raws := make([][]int, nchan)
+	for i := 0; i < nchan; i++ {
+		signed := r.Chance(1, 3)
+		base := r.Pick([]int{1200, 40000})
+		if signed {
+			base = r.Pick([]int{-80, 25, 6000})
+		}
+		ts := TS{Edge: true, ERising: true, ELevel: 100, LLevel: 4000, DelayNs: delayFor(&c, 100000)}
+		switch r.Intn(6) {
+		case 0:
+			ts.Auto, ts.DelayNs = true, delayFor(&c, r.Pick([]int{nsamp, 3 * nsamp}))
+		case 1:
+			ts.Level, ts.LRising, ts.LLevel = true, true, (base+300)&0xffff
+			if !signed {
+				ts.LLevel = base + 300
+			}
+		}
+		x := flat(n, base)
+		for _, bd := range bnd {
+			if r.Chance(4, 5) {
+				// recorded while the block before the boundary is processed, and still in the retained history
+				back := (nsamp - npre) + 1 + r.Intn(nsamp+npre+8)
+				addPulse(x, bd-back, 1500, r.Pick([]int{3, nsamp / 2, nsamp}))
+			}
+		}
+		raws[i] = toRaw(x, signed)
+		t := ts
+		c.Chans = append(c.Chans, ChanCfg{Signed: signed, Restored: &t})
+	}
+	ctl := map[int][]Op{}
+	for k := 1; k < nb; k++ {
+		if !r.Chance(5, 6) {
+			continue
+		}
+		for m := r.Range(1, 2); m > 0; m-- {
+			switch r.Intn(5) {
+			case 0, 1, 2:
+				ctl[k] = append(ctl[k], refusedRequest(r, &c, nsamp-npre))
+			case 3:
+				ctl[k] = append(ctl[k], Op{Op: "CL", Nsamp: nsamp, Npre: npre})
+			default:
+				ctl[k] = append(ctl[k], Op{Op: "CL", Nsamp: r.Pick([]int{2, 0, 3}), Npre: r.Pick([]int{2, 5, 3})})
+			}
+		}
+	}
+	assemble(&c, raws, blocks, ctl, r)
+	return c
 }
